@@ -679,6 +679,9 @@ package sftp
 //@   requires s != nil && s.working != nil && pkt.responsePacket != nil
 //@   update before send responses#1: ghost.ready = ghost.ready + 1
 //@   ensures ghost.ready == old(ghost.ready) + 1
+//@   update after call (*sync.WaitGroup).Done#1: ghost.wgDones = ghost.wgDones + 1
+//@   assert before call (*sync.WaitGroup).Done#1: ghost.ready == old(ghost.ready) + 1
+//@   ensures ghost.wgDones == old(ghost.wgDones) + 1
 
 //@ func statusFromError
 //@   property C07, C02, C10
@@ -906,7 +909,7 @@ package sftp
 //@ ghost var sweeping bool
 
 //@ func (*Server).Serve
-//@   property C07, C02, C11
+//@   property C07, C02, C11, C14
 //@   update before call (*packetManager).workerChan#1: ghost.workersJoined = false
 //@   update before call (*packetManager).workerChan#1: ghost.sweeping = false
 //@   update after call (*sync.WaitGroup).Wait#1: ghost.workersJoined = true
@@ -945,9 +948,19 @@ package sftp
 //@ ghost var waited bool
 //@ ghost var registered bool
 
+//@ ghost var wgAdds int
+//@ ghost var wgDones int
+
 //@ func (*packetManager).incomingPacket
 //@   property C14, C02
 //@   requires s != nil && s.working != nil
+//@   update after call (*sync.WaitGroup).Add#1: ghost.wgAdds = ghost.wgAdds + 1
+//@   assert before call (*sync.WaitGroup).Add#1: arg1 == 1
+//@   assert before send requests#1: ghost.wgAdds == old(ghost.wgAdds) + 1
+//@   ensures ghost.wgAdds == old(ghost.wgAdds) + 1
+// (every request, whatever its type or id, is counted in `working` before it is handed on, and readyPacket
+//  un-counts it exactly once after its response has been handed to the controller: the dispatcher's
+//  working.Wait() before a CLOSE therefore covers every earlier request)
 
 //@ func (*packetManager).workerChan$1
 //@   property C14
@@ -1357,7 +1370,7 @@ package sftp
 //@ ghost var notified bool
 
 //@ func (*RequestServer).Serve
-//@   property C07, C11
+//@   property C07, C11, C14
 //@   requires rsOK(rs) && rs.Reader != nil
 //@   update before call (*packetManager).workerChan#1: ghost.workersJoined = false
 //@   update after call (*sync.WaitGroup).Wait#1: ghost.workersJoined = true
